@@ -42,10 +42,18 @@ func (dec *Decoder) ReadBytes() []byte {
 
 func (dec *Decoder) readUint8Slice(et reflect.Type) []byte {
 	count := dec.ReadCount()
-	slice := make([]byte, count)
+	// the count comes from the wire: reserve a little, append as the elements really arrive, stop at
+	// the first error; the reference slot is taken now and filled when the slice has its final header
+	slice := make([]byte, 0, sizeHint(count)*8)
+	index := len(dec.refer.ref)
 	dec.AddReference(slice)
-	for i := 0; i < count; i++ {
-		dec.decodeUint8(et, dec.NextByte(), &slice[i])
+	for i := 0; i < count && dec.Error == nil; i++ {
+		var b uint8
+		dec.decodeUint8(et, dec.NextByte(), &b)
+		slice = append(slice, b)
+	}
+	if !dec.IsSimple() {
+		dec.refer.ref[index] = slice
 	}
 	dec.Skip()
 	return slice
